@@ -1,4 +1,5 @@
 #pragma once
+#include "../../common/verif_hooks.h"
 
 #include "../directSolver.h"
 
@@ -15,6 +16,7 @@ public:
     void solveInPlace(Vector<double>& solution) override;
 
 private:
+    GMGPOLAR_VERIF_FRIEND
     // Solver matrix and solver structure
     SparseMatrixCSR<double> solver_matrix_;
     SparseLUSolver<double> lu_solver_;
